@@ -5,7 +5,7 @@ from rules import rolling, common
 
 CLAIMED = True
 TECHNIQUE = "static analysis over type-checked MIR: panic/abort-site inventory of the trigger's cone (chrono LocalResult::unwrap, TimeDelta constructors, DateTime arithmetic, overflow/remainder asserts) with exhaustiveness discharge; comparison normal form; guard-span and edge-conditioned reschedule; per-variant schedule table (truncation constants, unit constructor, modulation operand); random-delay guard"
-LEVEL_TEXT = """Static decision of the no-panic, ordering and schedule-shape clauses (the calendar arithmetic's numeric results are NOT claimed): (Q0) panic inventory over the cone of TimeTrigger::new / get_next_time / Trigger::trigger — today it reports the known finding D5 (LocalResult::unwrap on ambiguous/non-existent local times, `% n` with unguarded n, unchecked calendar arithmetic, out-of-range chrono Duration constructors), each site keyed individually so that any new site is still reported; the trailing panic! is discharged by exhaustiveness of the variant tests; (Q1) is_pre_process is const true, the appender rolls before writing (C05.R2 premises) and CompoundPolicy::process rolls whenever the trigger answers true (no second guard); (Q2) trigger returns now >= next in comparison normal form; (Q3) comparison and reschedule happen under one RwLock::write guard, the reschedule only on the true edge, its value coming from a fresh TimeTrigger::new(self.config); (Q4) per interval variant: the truncation passes constant 0 (or 1 for day/month) exactly for the finer components, the added Duration constructor matches the unit, and with modulate the increment is n - x % n with x from the matching accessor, else n; (Q5) gen_range(0..d) only on the d > 0 edge and the delay is added in seconds to the computed time. (Q8, Q8s) with config_parsing: an interval written as a bare number - u64, i64 or a string without a unit - is Second(that number) (C20.L8/L3 re-evaluated)."""
+LEVEL_TEXT = """Static decision of the no-panic, ordering and schedule-shape clauses (the calendar arithmetic's numeric results are NOT claimed): (Q0) panic inventory over the cone of TimeTrigger::new / get_next_time / Trigger::trigger — today it reports the known finding D5 (LocalResult::unwrap on ambiguous/non-existent local times, `% n` with unguarded n, unchecked calendar arithmetic, out-of-range chrono Duration constructors), each site keyed individually so that any new site is still reported; the trailing panic! is discharged by exhaustiveness of the variant tests; (Q1) is_pre_process is const true, the appender rolls before writing (C05.R2 premises) and CompoundPolicy::process rolls whenever the trigger answers true (no second guard); (Q2) trigger returns now >= next in comparison normal form; (Q3) comparison and reschedule happen under one RwLock::write guard, the reschedule only on the true edge, its value coming from a fresh TimeTrigger::new(self.config); (Q4) per interval variant: the truncation passes constant 0 (or 1 for day/month) exactly for the finer components, the added Duration constructor matches the unit, and with modulate the increment is n - x % n with x from the matching accessor, else n; (Q5) gen_range(0..d) only on the d > 0 edge and the delay is added in seconds to the computed time. (Q8, Q8s) with config_parsing: an interval written as a bare number - u64, i64 or a string without a unit - is Second(that number) (C20.L8/L3 re-evaluated). (Q9) interval unit table (C20.L5 re-evaluated)."""
 LEVEL_NOTE = "Trusted: rustc MIR/callee resolution; chrono accessor/constructor semantics; std RwLock; rand. The numeric correctness of the boundary (is this the right local instant) and DST behaviour beyond 'does not panic' are not decided."
 EXPLANATION = """Decided: Q0 panic inventory (known finding D5 reported per site), Q1 pre-processing, Q2 comparator, Q3 atomic reschedule, Q4 schedule shape table, Q5 random-delay guard. Undecided: that the resulting instant is the right local boundary (numeric), DST behaviour beyond no-panic."""
 DECIDED = ["Q0 (known finding D5)", "Q1", "Q2", "Q3", "Q4", "Q5", "Q6 the configuration reaches the trigger unchanged", "Q7 missing keys: no modulation, no random delay"]
@@ -54,6 +54,7 @@ def run_cfg(ctx, p, cfg):
         common.rule_config_reaches_component(ctx, p, cfg, "Q6", "TimeTriggerDeserializer", "TimeTrigger::new", stored={"config": 1})
         serde_defaults.rule_missing_keys(ctx, p, cfg, "Q7", "trigger::time::TimeTriggerConfig")     # no modulation and no random delay unless asked for
         from rules import c20
+        c20.rule_interval_units(ctx, p, cfg, "Q9")      # the unit the schedule is computed for is the unit written (C20.L5 re-evaluated)
         c20.rule_interval_number(ctx, p, cfg, "Q8")     # the schedule is computed from the interval the file asks for: a bare number is seconds, not a coarser unit (C20.L8/L3 re-evaluated)
     with ctx.rule("Q0", "panic inventory", cfg) as r:
         cone = p.cone([NEW, TRIG], cut_traits=CUT)
